@@ -2069,3 +2069,55 @@ Theorem sub_absent_member_refuted :
 Proof.
   exists w_T, w_F, (w_C (VLeaf "NoneType" "None")). eexists. repeat split; vm_compute; reflexivity.
 Qed.
+
+(* ====================================================================== *)
+(* bridges: the helper predicates of utils.py, regenerated whole, are what the model hard-codes *)
+(* ====================================================================== *)
+(* is_dataclass_instance(x) <-> x is a dataclass INSTANCE (VDc in the model; SInst among selections) *)
+Theorem is_dataclass_instance_bridge : forall k, is_dataclass_instance_gen k = match k with KInst => true | _ => false end.
+Proof. intros []; reflexivity. Qed.
+Theorem is_dc_bridge : forall v, is_dataclass_instance_gen (kind_of v) = is_dc v.
+Proof. intros []; reflexivity. Qed.
+(* is_dataclass_type(x) <-> x is a dataclass CLASS (SType among selections; never a field value of the model) *)
+Theorem is_dataclass_type_bridge : forall k, is_dataclass_type_gen k = match k with KDcClass => true | _ => false end.
+Proof. intros []; reflexivity. Qed.
+(* the first two arms of the resolution chain of replace_subgroups fire exactly on SType / SInst *)
+Theorem resolve_arms_bridge : forall s,
+  is_dataclass_type_gen (skind s) = match s with SType _ => true | _ => false end /\
+  is_dataclass_instance_gen (skind s) = match s with SInst _ => true | _ => false end.
+Proof. intros []; split; reflexivity. Qed.
+
+Section AnnInd.
+  Variable P : ann -> Prop.
+  Hypothesis Hbase : forall t, match t with AUnion _ => True | _ => P t end.
+  Hypothesis Hunion : forall l, Forall P l -> P (AUnion l).
+  Fixpoint ann_ind' (t : ann) : P t :=
+    match t return P t with
+    | AUnion l => Hunion l ((fix go (l : list ann) : Forall P l :=
+                               match l with [] => Forall_nil _ | x :: r => Forall_cons x (ann_ind' x) (go r) end) l)
+    | ADc => Hbase ADc | ATypeVarDc => Hbase ATypeVarDc | AListDc => Hbase AListDc | ANoneType => Hbase ANoneType
+    | ALiteral b => Hbase (ALiteral b) | AOther => Hbase AOther
+    end.
+End AnnInd.
+
+Lemma existsb_ext_Forall {A} (f g : A -> bool) l : Forall (fun x => f x = g x) l -> existsb f l = existsb g l.
+Proof. induction 1 as [|x r Hx _ IH]; [reflexivity|]. cbn [existsb]. now rewrite Hx, IH. Qed.
+
+(* contains_dataclass_type_arg = "the field can hold a dataclass member" (the m_has_dc column of the observed tables) *)
+Theorem contains_dc_bridge : forall t, contains_dc_gen t = spec_holds_dc t.
+Proof.
+  apply (ann_ind' (fun t => contains_dc_gen t = spec_holds_dc t)).
+  - intros t. destruct t; try reflexivity; exact I.
+  - intros l IH. cbn. apply existsb_ext_Forall. exact IH.
+Qed.
+(* is_optional = "None is an allowed value" (the m_optional column) *)
+Theorem is_optional_bridge : forall t, is_optional_gen t = spec_optional t.
+Proof.
+  intros [| | |l| |b|]; try reflexivity.
+  - unfold is_optional_gen. cbn [p_is_union p_args p_is_literal p_literal_has_none spec_optional andb].
+    now destruct (existsb p_is_nonetype l).
+  - unfold is_optional_gen. cbn [p_is_union p_args p_is_literal p_literal_has_none spec_optional andb].
+    now destruct b.
+Qed.
+Theorem ann_lookup_bridge : ann_lookup_is_plain_function_gen = true.
+Proof. reflexivity. Qed.
